@@ -419,6 +419,8 @@ def _sanitizer(t, case, rng):
         lo, hi = float(np.min(traces)), float(np.max(traces))
         # samples on the first / last edge, inside and outside
         edges = np.linspace(lo + (1 if rng.random() < 0.5 else 0), hi - (1 if rng.random() < 0.5 and hi - lo > 3 else 0) + (0 if hi > lo else 1), nbins + 1)
+        if not edges[-1] > edges[0]:
+            edges = np.linspace(lo - 1, hi + 1, nbins + 1)        # the kernel is only ever handed increasing edges (the setter refuses anything else)
     mon = KernelMonitor()
     fn = interpreted(K[kern], mon)
     acc = _fresh(kern, prec, T, W, ncls, nbins)
